@@ -441,6 +441,17 @@ func (s *c09Scenario) deriveList(recv at.List, arg at.List, which int, resName s
 			if b == 0 {
 				b = n
 			}
+			if n > 1 && r.Chance(1, 3) {
+				// the ranges that touch an end of the list: a proper tail, a proper head, everything but the ends
+				switch r.Intn(3) {
+				case 0:
+					a, b = r.Range(1, n-1), n
+				case 1:
+					a, b = 0, r.Range(1, n-1)
+				default:
+					a, b = 1, maxInt(1, n-1)
+				}
+			}
 		}
 		if n > 1 && r.Chance(1, 6) {
 			// a range outside the documented domain (start beyond end, start below zero, end beyond the count): the call is
@@ -780,6 +791,7 @@ func runC09(c *fw.Ctx) {
 		c09Case(c, r, i, true)
 	})
 	c.Cases("scenarios", c.N(2000, 800000), false, func(i int, r *rng.R) { c09Case(c, r, -1, false) })
+	c.Cases("ranges-of-full-lists", c.N(120, 12000), true, func(i int, r *rng.R) { c09RangesOfFullLists(c, i, r) })
 	c.Cases("paging", c.N(60, 6000), false, func(i int, r *rng.R) { c09Paging(c, r) })
 	c.Cases("paging-objects", c.N(40, 4000), false, func(i int, r *rng.R) { c09PagingObjects(c, r) })
 }
@@ -1328,4 +1340,133 @@ func selfC09(s *fw.SelfCheck) {
 	t2 := top(sl)
 	sl[0] = 9
 	s.Expect(!sameTop(t2, top(sl)), "native snapshot misses an element store")
+}
+
+// c09RangesOfFullLists: a receiver whose array is exactly full (made by a constructor, a deriving call or grown to a
+// power of two), every range that touches an end of it (tails, heads, the middle, the whole), and then every kind of
+// in-place change on the receiver and on the result, each followed by a look at both: neither shows what was done to
+// the other.
+func c09RangesOfFullLists(c *fw.Ctx, i int, r *rng.R) {
+	n := []int{2, 3, 4, 5, 8, 16, 7, 9}[i%8]
+	vals := make([]any, n)
+	for j := range vals {
+		vals[j] = 100 + j
+	}
+	var recv at.List
+	var how string
+	switch (i / 8) % 6 {
+	case 0:
+		recv, how = at.NewList(vals...), "NewList(values...)"
+	case 1:
+		recv, how = at.NewListFrom(vals), "NewListFrom(slice)"
+	case 2:
+		recv, how = at.NewList(vals[:n/2]...).Concat(at.NewList(vals[n/2:]...)), "a Concat result"
+	case 3:
+		recv, how = at.NewList(append([]any{"head"}, vals...)...).SubList(1, 0), "a SubList result"
+	case 4:
+		recv = at.NewList()
+		for _, v := range vals {
+			recv.Add(v)
+		}
+		how = "grown by single Adds"
+	default:
+		rev := make([]any, n)
+		for j := range rev {
+			rev[j] = vals[n-1-j]
+		}
+		recv, how = at.NewList(rev...).Sort(), "a sorted list"
+	}
+	start, end := 0, n
+	switch (i / 48) % 4 {
+	case 0:
+		start = r.Range(1, n-1) // a proper tail
+	case 1:
+		end = r.Range(1, n-1) // a proper head
+	case 2:
+		if n > 2 {
+			start, end = 1, n-1
+		}
+	}
+	endArg := end
+	if end == n && r.Bool() {
+		endArg = 0 // the same end counted from the back
+	}
+	var trace []string
+	in := func() string {
+		return fmt.Sprintf("recv = %s with %d elements 100..; res = recv.SubList(%d, %d); then %s", how, n, start, endArg, strings.Join(trace, "; "))
+	}
+	guard(c, in, func() {
+		c.Distinct(fmt.Sprintf("%d %s %d %d", n, how, start, end))
+		c.Count("ranges_of_full_lists")
+		res := recv.SubList(start, endArg)
+		mr := append([]any{}, vals...)            // what recv holds
+		ms := append([]any{}, vals[start:end]...) // what res holds
+		look := func(after string) bool {
+			for name, pair := range map[string][2]any{"recv": {recv, mr}, "res": {res, ms}} {
+				got := top(pair[0]).([]any)
+				want := pair[1].([]any)
+				if !sameTop(got, want) {
+					c.Violate("storage-shared-between-parties", in(), fmt.Sprintf("%s = %s after %s", name, showTop(want), after), showTop(got))
+					return false
+				}
+			}
+			return true
+		}
+		if !look("the SubList call") {
+			return
+		}
+		steps := r.Range(2, 5)
+		for st := 0; st < steps; st++ {
+			onRecv := r.Bool()
+			l, m := res, &ms
+			name := "res"
+			if onRecv {
+				l, m, name = recv, &mr, "recv"
+			}
+			k := len(*m)
+			var desc string
+			switch op := r.Intn(6); {
+			case op == 0 && k > 0:
+				j := r.Intn(k)
+				if onRecv && j < start && r.Bool() && start < k {
+					j = start + r.Intn(k-start)
+				}
+				v := 900 + st
+				l.Replace(j, v)
+				(*m)[j] = v
+				desc = fmt.Sprintf("%s.Replace(%d, %d)", name, j, v)
+			case op == 1 && k > 1:
+				l.Reverse()
+				for a, b := 0, k-1; a < b; a, b = a+1, b-1 {
+					(*m)[a], (*m)[b] = (*m)[b], (*m)[a]
+				}
+				desc = name + ".Reverse()"
+			case op == 2 && k > 1:
+				j := r.Intn(k)
+				l.Delete(j)
+				*m = append(append([]any{}, (*m)[:j]...), (*m)[j+1:]...)
+				desc = fmt.Sprintf("%s.Delete(%d)", name, j)
+			case op == 3 && k > 1:
+				l.Pop()
+				*m = append([]any{}, (*m)[:k-1]...)
+				desc = name + ".Pop()"
+			case op == 4:
+				j := r.Intn(k + 1)
+				v := 800 + st
+				l.Insert(j, v)
+				*m = append(append(append([]any{}, (*m)[:j]...), v), (*m)[j:]...)
+				desc = fmt.Sprintf("%s.Insert(%d, %d)", name, j, v)
+			default:
+				v := 700 + st
+				l.Add(v)
+				*m = append(append([]any{}, *m...), v)
+				desc = fmt.Sprintf("%s.Add(%d)", name, v)
+			}
+			trace = append(trace, desc)
+			c.Count("mutations")
+			if !look(desc) {
+				return
+			}
+		}
+	})
 }
